@@ -33,6 +33,13 @@ def _any_to_object(t):
         # A | B is typing.Union[A, B], also inside type[...]
         return typing.Union[tuple(_any_to_object(a) for a in t.__args__)]
     args = getattr(t, "__args__", None)
+    if (
+        args
+        and isinstance(t, typing._GenericAlias)
+        and isinstance(t.__origin__, type)
+    ):
+        # typing.List[A] is list[A], also inside type[...]
+        return t.__origin__[tuple(_any_to_object(a) for a in args)]
     if args and getattr(t, "__origin__", None) is not None:
         new_args = tuple(_any_to_object(a) for a in args)
         if new_args != tuple(args):
